@@ -35,6 +35,10 @@ def cases(tier, seed):
     return [{'idx': i, 'wseed': rng.randrange(1 << 30)} for i in range(n)]
 
 
+DYN_KINDS = ['fail', 'error', 'setup_error', 'teardown_error',
+             'body_teardown_error', 'cleanup_error', 'fail_teardown_error']
+
+
 def run_case(case):
     import common
     import gen
@@ -68,6 +72,13 @@ def run_case(case):
     opts = {'stop': True, 'verbose': rng.randint(0, 2)}
     if rng.random() < 0.4:
         opts['repeat'] = rng.randint(2, 3)
+        # a test that goes wrong in a later iteration only (or only in the
+        # first): the stop must come exactly there
+        for tid, ov in list((plan.get('tests') or {}).items()):
+            if ov['kind'] in DYN_KINDS and rng.random() < 0.45:
+                plan['tests'][tid] = {'kind': 'pass', 'kinds_seq': rng.choice(
+                    [['pass', ov['kind']], ['pass', 'pass', ov['kind']],
+                     [ov['kind'], 'pass'], ['skip_body', ov['kind']]])}
     if rng.random() < 0.3:
         opts['shuffle_seed'] = rng.randrange(1000)
     mode = 'in'
@@ -109,8 +120,13 @@ def run_case(case):
         first = None        # index of first event of the first bad item
         bad_tid = None
         for i, e in enumerate(evs):
-            if e['k'] == 'test.setUp' and e['id'] in bad_ids:
+            if e['k'] == 'test.setUp' and e['id'] in bad_ids and (
+                    e.get('ek') is None or vworld.is_bad({'kind': e['ek']})):
                 first, bad_tid = i, e['id']
+                if e.get('ek') and i and any(
+                        x['k'] == 'test.setUp' and x['id'] == e['id']
+                        for x in evs[:i]):
+                    C('bad_in_later_iteration_only')
                 break
             if e['k'] == 'layer.setUp.exit' and not e.get('ok'):
                 first, bad_tid = i, None
